@@ -33,7 +33,7 @@ import random
 LEVEL = "fault_enumeration"
 ENGINE = "E2-netsim"
 TECHNIQUE = "runtime monitoring: lenient reference response reader on the delivered prefix vs. request Deferred and body-protocol events"
-RULE = ("responses from a structured generator (GET/HEAD/POST requests, persistent or not; 0-2 interim 1xx; HTTP/1.0/1.1; "
+RULE = ("responses from a structured generator (GET/HEAD/POST requests, persistent or not; 0-2 interim 1xx, half of them carrying Content-Length / Transfer-Encoding / Connection headers of their own; HTTP/1.0/1.1; "
         "reason present/empty/missing; CRLF or LF-only line ends; folded headers; Content-Length plain/duplicate/list/"
         "folded/zero-padded, chunked with extensions, padded sizes and trailers, close-delimited, HEAD/204/304 with stray "
         "framing headers; 25% serialised by h11; clear-cut malformed variants; trailing bytes) x connection loss at every "
@@ -47,7 +47,7 @@ SHARDS = {"quick": 4, "thorough": 16}
 FLOORS = {"runs": 20000, "truncation_points": 5000, "deferred_response": 5000, "deferred_response_failed": 2000, "deferred_never_received": 200,
           "body_lost_ResponseDone": 1500, "body_lost_PotentialDataLoss": 500, "body_lost_truncated": 1500, "body_bytes_compared": 20000,
           "interim_skipped": 500, "policy_immediate": 1000, "policy_after-return": 1000, "policy_ignore-pause": 500, "policy_after-loss": 1000,
-          "h11_crosschecks": 50, "malformed_head_runs": 300, "head_or_nobody_runs": 1000}
+          "h11_crosschecks": 50, "responses_with_framing_headers_on_interim": 20, "malformed_head_runs": 300, "head_or_nobody_runs": 1000}
 READY = True
 
 NOBODY_CODES = (204, 304)
@@ -241,12 +241,25 @@ def gen_response(rng):
     version = b"HTTP/1.1" if rng.random() < 0.8 else rng.choice([b"HTTP/1.0", b"HTTP/1.1", b"HTTP/2.0", b"ICY/1.0"])
     reason = rng.choice([b" OK", b" OK", b"", b" ", b" Not Found", b" Multi Word Reason ", b" \xe9"])
     raw = bytearray()
-    n_interim = rng.choice([0, 0, 0, 0, 0, 0, 1, 1, 2])
+    n_interim = rng.choice([0, 0, 0, 0, 0, 1, 1, 1, 2])
+    n_framed_interim = 0
     for _ in range(n_interim):
         ie = eol if rng.random() < 0.8 else (b"\n" if eol == b"\r\n" else b"\r\n")
         raw += b"HTTP/1.1 " + rng.choice([b"100 Continue", b"102 Processing", b"103 Early Hints", b"100", b"199 "]) + ie
         for _ in range(rng.choice([0, 0, 1, 2])):
             raw += rng.choice([b"Link: </s.css>; rel=preload", b"X-Interim: 1", b"Server: i"]) + ie
+        if rng.random() < 0.5:
+            # framing / connection-control headers carried by the interim response itself: a 1xx response
+            # never has a body and its header fields must not influence how the final response is framed
+            pool = [rng.choice([b"Content-Length: 0", b"Content-Length: %d" % rng.choice([1, 5, 7, 1000]), b"content-length: 3"]),
+                    b"Transfer-Encoding: chunked", b"Connection: close", b"Connection: keep-alive", b"Keep-Alive: timeout=5",
+                    b"Upgrade: h2c", b"Trailer: X-T", b"TE: trailers", b"Proxy-Connection: close"]
+            picks = rng.sample(pool, rng.choice([1, 1, 2, 3]))
+            if rng.random() < 0.6 and pool[0] not in picks:
+                picks[0] = pool[0]
+            for hline in picks:
+                raw += hline + ie
+            n_framed_interim += 1
         raw += ie
     status_code = b"%d" % code
     if malformed == "bad-status-code":
@@ -327,7 +340,7 @@ def gen_response(rng):
     head_malformed = malformed in ("bad-status-code", "bad-version", "conflicting-cl", "non-numeric-cl", "header-no-colon")
     return {"method": method, "code": code, "framing": "none" if nobody else framing, "malformed": malformed, "raw": bytes(raw), "hdr_end": hdr_end,
             "msg_end": msg_end, "exp_body": exp_body, "complete_state": complete_state, "head_malformed": head_malformed, "interim": n_interim,
-            "persistent": rng.random() < 0.3, "source": "generator"}
+            "framed_interim": n_framed_interim, "persistent": rng.random() < 0.3, "source": "generator"}
 
 
 def gen_h11_response(rng):
@@ -345,8 +358,13 @@ def gen_h11_response(rng):
             break
     raw = bytearray()
     n_interim = 0
+    framed_interim = 0
     if rng.random() < 0.25 and not http10:
-        raw += c.send(h11.InformationalResponse(status_code=rng.choice([100, 102, 103]), headers=[(b"X-Interim", b"1")]))
+        ih = [(b"X-Interim", b"1")]
+        if rng.random() < 0.5:
+            ih.append(rng.choice([(b"Content-Length", b"0"), (b"Content-Length", b"4"), (b"Connection", b"close"), (b"Keep-Alive", b"timeout=5")]))
+            framed_interim = 1
+        raw += c.send(h11.InformationalResponse(status_code=rng.choice([100, 102, 103]), headers=ih))
         n_interim = 1
     body = _rand_body(rng)
     nobody = method == b"HEAD" or code in NOBODY_CODES
@@ -366,7 +384,7 @@ def gen_h11_response(rng):
     framing = "none" if nobody else "cl" if use_cl else "close" if http10 else "chunked"
     return {"method": method, "code": code, "framing": framing, "malformed": None, "raw": bytes(raw), "hdr_end": hdr_end, "msg_end": len(raw),
             "exp_body": b"" if nobody else body, "complete_state": "close-delimited" if framing == "close" else "complete", "head_malformed": False,
-            "interim": n_interim, "persistent": rng.random() < 0.3, "source": "h11"}
+            "interim": n_interim, "framed_interim": framed_interim, "persistent": rng.random() < 0.3, "source": "h11"}
 
 
 def h11_client_view(desc):
@@ -666,6 +684,8 @@ def run_response(ctx, h, desc, rng, sample=False):
     if not selfcheck(ctx, desc):
         return
     ctx.count("responses")
+    if desc.get("framed_interim"):
+        ctx.count("responses_with_framing_headers_on_interim")
     ctx.count("responses_" + desc["source"])
     ctx.seen("framings", desc["framing"] + ("/" + desc["malformed"] if desc["malformed"] else ""))
     raw = desc["raw"]
